@@ -5,6 +5,7 @@ import (
 	"go/constant"
 	"go/types"
 	"math/big"
+	"os"
 	"strings"
 
 	"golang.org/x/tools/go/packages"
@@ -1052,7 +1053,7 @@ func (c *SpecCtx) applySpecFunc(sf *SpecFunc, e *ECall) SVal {
 				}
 				formals = append(formals, fmt.Sprintf("(Hp_%s %s)", mangle(hs), arraySort(SLoc, es)))
 			}
-			if strings.Contains(v.T.S, "(forall ") || strings.Contains(v.T.S, "(exists ") {
+			if (strings.Contains(v.T.S, "(forall ") || strings.Contains(v.T.S, "(exists ")) && os.Getenv("GOVC_SF_MACRO") == "" {
 				// quantified body: declare the function and give its definition as an
 				// axiom triggered on applications, so that the solver unfolds it lazily
 				var sorts, names []string
